@@ -285,10 +285,13 @@ def per_cell_table(den):
     t = {}
     ncell = len(den["cells"])
     for i, c in enumerate(den["cells"]):
-        for (base, part), vals in norm_params(c["params"]).items():
+        # every occurrence counts: a datum given twice on one cell card ('imp:n=1 imp:p,n=1') is listed twice
+        for key, vals in c["params"]:
+            base, parts = split_key(key)
             b = base.lstrip("*")
             if b in CELL_DATA:
-                t.setdefault((i, b, part), []).append(("cell", vals))
+                for part in parts:
+                    t.setdefault((i, b, part), []).append(("cell", vals))
     for card in den["data"]:
         base, parts = split_key(card["name"])
         b = base.lstrip("*")
